@@ -132,7 +132,9 @@ def collect(run, results, mine, w_args, menu_fn, ignore=(), part=None):
                 run.fail(sig, dict(call=r["call"], result=r["res"], error=r["err"], failing=r["bad"],
                                    pre_state=r.get("vals")),
                          dict(harness="step", vals=r.get("vals"), clauses=sorted(set(b[0] for b in failed)),
-                              call=r["call"], part=part, expect_hang=r.get("expect_hang", False)))
+                              call=r["call"], part=part, expect_hang=r.get("expect_hang", False),
+                              passthrough="locale" in r.get("env_asked", []) and not (r.get("vals") or {}).get(
+                                  "env_locale_is_utf8", True)))
 
 
 def make_replayer(w_args, menu_fn, kernels_fn=None):
@@ -146,7 +148,8 @@ def make_replayer(w_args, menu_fn, kernels_fn=None):
             return step.alias_native(payload["what"])
         if payload.get("harness") == "learn":
             return step.learn_native(payload["what"], [c.encode("latin1") for c in payload["contents"]])
-        return step.replay_native(w_args, menu_fn, payload["vals"], payload["clauses"])
+        return step.replay_native(w_args, menu_fn, payload["vals"], payload["clauses"],
+                                  mode="passthrough" if payload.get("passthrough") else "native")
     return replay
 
 
@@ -167,7 +170,7 @@ def big_bytes(n, tail=b""):
 STORE_ALGOS5 = ["MD5", "SHA-1", "SHA-256", "SHA-384", "SHA-512"]
 
 
-def two_stores_script(M, M2, mk_root, put, algo_a, algo_b):
+def two_stores_script(M, M2, mk_root, put, algo_a, algo_b, decoy=None):
     """One process (module M) works with store X (algorithm A) and then with store Y (algorithm B) under the same
     identifier; afterwards another process (a fresh copy M2 of the module) opens Y.  Returns a list of failures."""
     pid, other = "doi:10.5063/shared-id", "doi:10.5063/other-id"
@@ -175,7 +178,13 @@ def two_stores_script(M, M2, mk_root, put, algo_a, algo_b):
     bad = []
 
     def props(root, algo):
-        return dict(store_path=root, store_depth=3, store_width=2, store_algorithm=algo, store_metadata_namespace="ns")
+        # the two stores also differ in their default metadata namespace
+        return dict(store_path=root, store_depth=3, store_width=2, store_algorithm=algo,
+                    store_metadata_namespace="ns-" + root[-1])
+    if decoy is not None:
+        # the working directory holds files named like the digests of the contents (not the store's objects)
+        for c_, a_ in ((c1, algo_a), (c2, algo_b), (c3, algo_a), (c3, algo_b)):
+            decoy(hashlib.new(D1(a_), c_).hexdigest(), b"not the object")
     x = M.FileHashStore(props(mk_root("x"), algo_a))
     x.store_object(pid, put("c1", c1))
     x.store_metadata(pid, put("d1", b"<x/>"))
@@ -183,6 +192,9 @@ def two_stores_script(M, M2, mk_root, put, algo_a, algo_b):
         x.retrieve_object(pid).close()
     y = M.FileHashStore(props(mk_root("y"), algo_b))
     try:
+        # the first store goes on being used after the second one was opened
+        x.store_metadata(other, put("d3", b"<x2/>"))
+        x.store_object(other, put("c3", c3))
         om = y.store_object(pid, put("c2", c2))
         if om.cid != hashlib.new(D1(algo_b), c2).hexdigest():
             bad.append(("second-store:cid-not-digest-under-its-algorithm", om.cid))
@@ -191,7 +203,20 @@ def two_stores_script(M, M2, mk_root, put, algo_a, algo_b):
     except Exception as e:   # noqa
         bad.append(("second-store:call-failed", type(e).__name__))
         return bad
-    # another process opens Y
+    # another process opens X and Y
+    try:
+        x2 = M2.FileHashStore(props(mk_root("x"), algo_a))
+        for what, fn, want in (("metadata", lambda: x2.retrieve_metadata(other), b"<x2/>"),
+                               ("metadata", lambda: x2.retrieve_metadata(pid), b"<x/>"),
+                               ("object", lambda: x2.retrieve_object(other), c3)):
+            st = fn()
+            try:
+                if st.read() != want:
+                    bad.append(("later-process:first-store-%s-differs" % what, ""))
+            finally:
+                st.close()
+    except Exception as e:   # noqa
+        bad.append(("later-process:first-store-%s-not-retrievable" % what, type(e).__name__))
     y2 = M2.FileHashStore(props(mk_root("y"), algo_b))
     try:
         st = y2.retrieve_object(pid)
@@ -258,7 +283,8 @@ def two_stores(run, prop, mine_prefixes):
             shim.fs = F
             put = lambda name, data: (F.b.create("/src/" + name, data), "/src/" + name)[1]
             try:
-                bad = two_stores_script(M, M2, lambda n: "/st_" + n, put, STORE_ALGOS5[a], STORE_ALGOS5[b])
+                bad = two_stores_script(M, M2, lambda n: "/st_" + n, put, STORE_ALGOS5[a], STORE_ALGOS5[b],
+                                        decoy=lambda name, data: F.b.create("/" + name, data))
             except symfs.Crash:
                 raise
             except Exception as e:   # noqa
@@ -293,7 +319,16 @@ def replay_two_stores(payload):
             with open(root + "/src/" + name, "wb") as fh:
                 fh.write(data)
             return root + "/src/" + name
-        bad = two_stores_script(MN, MN2, lambda n: root + "/st_" + n, put, STORE_ALGOS5[payload["a"]], STORE_ALGOS5[payload["b"]])
+        def decoy(name, data):
+            with open(os.path.join(root, name), "wb") as fh:
+                fh.write(data)
+        cwd0 = os.getcwd()
+        os.chdir(root)
+        try:
+            bad = two_stores_script(MN, MN2, lambda n: root + "/st_" + n, put, STORE_ALGOS5[payload["a"]],
+                                    STORE_ALGOS5[payload["b"]], decoy=decoy)
+        finally:
+            os.chdir(cwd0)
         hit = [x for x in bad if x[0] in payload["clauses"]]
         return bool(hit), ("native run (two unpatched copies of the module standing for two processes, real file system): "
                            "first store %s, second store %s: %s" % (STORE_ALGOS5[payload["a"]], STORE_ALGOS5[payload["b"]], bad))
